@@ -210,6 +210,10 @@ func (ru *run) oracle(b *chainBlock) {
 
 func runOne(r *sim.Run) {
 	t := r.T
+	if r.Prop == "C14" {
+		runTransport(r)
+		return
+	}
 	ru := &run{r: r, t: t, a: newAuthor()}
 	ru.g = mkGenesis(t)
 	// ---------------- phase A: author ----------------------------------------------------------
